@@ -23,7 +23,7 @@ func init() {
 			return 32
 		},
 		Batches:  func(t string) int { return 16 },
-		Parallel: 8,
+		Parallel: 12,
 		Rule: "one case = one run of n real consensus engines (real block manager, service manager, file WALs) whose whole traffic is routed by the harness under a PRNG fault plan (drop/delay/duplicate/partition), a Byzantine strategy for f validators (vote equivocation, proposal equivocation, scripted lock attack on the prevote-locked-block rule, scripted stale-polka attack on the unlock-only-on-later-polka rule) and crash/restart of correct validators with torn WALs. Monitor: every Finalize by a correct validator must equal every other at that height and must be preceded on the wire by precommits for exactly that block from >2n/3 distinct validators in one round (online + offline re-check). Non-trivial = run in which >=2 heights were finalized by >=2 correct validators and (a round >0 occurred, or a Byzantine equivocation was put on the wire, or a validator crashed and restarted); distinct by (class, max round, crashes, equivocations, vote-arrival order hash).",
 		MinNonTrivial: func(t string) int {
 			if t == ev.Thorough {
